@@ -546,6 +546,12 @@ func runC17(c *Ctx, r *Report) {
 		r.floor("pieces appended to the mask", n, 4)
 	}
 
+	// ---------------- R8 ----------------
+	r.rule("C17-R8", "A (must-pass-through) + B (cross-closure state census)", "P1",
+		"a local of parseOptions that one option handler (closure) sets from its argument and another handler reads is also stored, on every path of the setter, into a field reachable from opts — parseOptions runs once per layer (file, environment, argv) and its locals do not survive",
+		"an option given in $FZF_DEFAULT_OPTS is silently lost when the related option comes from the command line (--history-size in the environment with --history on the command line: file never capped)")
+	c17r8(c, r, pos)
+
 	if c.thorough() {
 		// ---------------- R5 ----------------
 		r.rule("C17-R5", "D (provenance)", "P2",
@@ -682,4 +688,108 @@ func explicitBlank(files []*ast.File, fset *token.FileSet, pos token.Pos) bool {
 		return res
 	}
 	return false
+}
+
+func c17r8(c *Ctx, r *Report, pos *ssa.Function) {
+	// the cell holding the *Options parameter
+	var optsParam *ssa.Parameter
+	for _, p := range pos.Params {
+		if strings.HasSuffix(p.Type().String(), ".Options") {
+			optsParam = p
+		}
+	}
+	if optsParam == nil {
+		r.unest("anchors opts", token.NoPos, pos, "the *Options parameter of parseOptions", "not found")
+		return
+	}
+	rootedAtOpts := func(addr ssa.Value) bool {
+		v := addr
+		for i := 0; i < 12; i++ {
+			switch x := v.(type) {
+			case *ssa.FieldAddr:
+				v = x.X
+			case *ssa.IndexAddr:
+				v = x.X
+			case *ssa.UnOp:
+				if x.Op != token.MUL {
+					return false
+				}
+				// load of the opts cell, or load of a pointer field of opts
+				if cell := cellRoot(x.X); cell != nil {
+					for _, st := range storesToCell(cell) {
+						if st.Val == ssa.Value(optsParam) {
+							return true
+						}
+					}
+				}
+				v = x.X
+			case *ssa.Parameter:
+				return x == optsParam
+			default:
+				return false
+			}
+		}
+		return false
+	}
+	n := 0
+	fns := withClosures(pos)
+	for _, g := range fns {
+		if g == pos || len(g.Params) == 0 {
+			continue
+		}
+		eachInstr(g, func(in ssa.Instruction) {
+			st, ok := in.(*ssa.Store)
+			if !ok {
+				return
+			}
+			cell, ok := cellRoot(st.Addr).(*ssa.Alloc)
+			if !ok || cell.Parent() != pos || cellRoot(st.Addr) != ssa.Value(cell) {
+				return
+			}
+			if _, isField := st.Addr.(*ssa.FieldAddr); isField {
+				return
+			}
+			// value derived from one of g's parameters
+			var from *ssa.Parameter
+			for v := range backwardSlice(st.Val, nil, nil) {
+				if p, ok := v.(*ssa.Parameter); ok && p.Parent() == g {
+					from = p
+				}
+			}
+			if from == nil {
+				return
+			}
+			// read elsewhere (another closure or the root)?
+			readElsewhere := false
+			for _, ld := range loadsOfCell(cell) {
+				if ld.Parent() != g {
+					readElsewhere = true
+				}
+			}
+			if !readElsewhere {
+				return
+			}
+			n++
+			isPersist := func(i ssa.Instruction) bool {
+				s2, ok := i.(*ssa.Store)
+				if !ok || !rootedAtOpts(s2.Addr) {
+					return false
+				}
+				if _, isF := s2.Addr.(*ssa.FieldAddr); !isF {
+					return false
+				}
+				for v := range backwardSlice(s2.Val, nil, nil) {
+					if v == ssa.Value(from) {
+						return true
+					}
+				}
+				return false
+			}
+			goal := pathAvoiding(st, isReturn, isPersist, nil)
+			r.check(goal == nil, fmt.Sprintf("%s:persist `%s`", relName(g), cell.Comment), st.Pos(), g,
+				fmt.Sprintf("handler stores its argument into the local `%s` (read by other handlers) and, on every path, into a field of opts", cell.Comment),
+				"the value lives only in a local of this parseOptions pass (or is saved to opts only conditionally): it is lost for the next option layer")
+		})
+	}
+	r.floor("cross-handler locals of parseOptions set from an option argument", n, 1)
 }
